@@ -81,6 +81,20 @@ class RefExporter:
             self.mms.append(dict(r)); self.mm_ids.append(rid)
         return self.write_block() if self.full() else False
 
+    def wb(self, k, letters):
+        """write_block(block) with a block the application built itself (here: one query/response holding client_port 53 per
+        letter 'p', under parameter set k): goes to the output as it is; the exporter's own buffered records are not touched"""
+        qrs = [{"cport": 53} for c in letters if c == "p"]
+        if not qrs:
+            return False
+        if self.blocks_written == 0:
+            self.out_preamble[-1] = len(self.bps)
+            self.out_preamble_bps[-1] = [dict(b) for b in self.bps]
+        self.outputs[-1].append({"pi": k, "st": None, "qrs": qrs, "aecs": {}, "mms": [], "qr_ids": [None] * len(qrs), "mm_ids": [],
+                                 "st_id": None})
+        self.blocks_written += 1
+        return True
+
     def rotate(self, export):
         w = self.write_block() if export else False
         w = w or self.blocks_written > 0          # the closing break is counted in the return value
@@ -181,6 +195,8 @@ def make_session(fp, bps, ops, target="fd", compress="n", end_flush=True, destro
         elif k == "R":
             toks.append("R:%s:%d" % (op[1], 1 if op[2] else 0)); exp.append(("ret", ref.rotate(bool(op[2]))))
             ab.append("R:%d" % (1 if op[2] else 0))
+        elif k == "WB":
+            toks.append("WB:%d:%s" % (op[1], op[2])); exp.append(("ret", ref.wb(op[1], op[2]))); ab_ok = False
         elif k == "EH":
             toks.append("EH:%d:%d:%d:%d" % (op[1]["qrh"], op[1]["sigh"], op[1]["rrh"], op[1]["odh"])); ref.edit_hints(op[1])
             exp.append(("lit", "ok")); ab_ok = False
@@ -268,8 +284,14 @@ def gen_session(rng, nops=None, rotations=False, compress="n", target="fd", nbps
             if i < len(shadow.bps) and shadow.out_preamble[-1] is not None and i >= shadow.out_preamble[-1]:
                 continue
             ops.append(("SA", i)); shadow.set_active(i)
-        elif k < 95:
+        elif k < 94:
             ops.append(("C",))
+        elif k < 95:
+            # a block the application built itself, written between the buffer calls (it must not disturb what is buffered)
+            lim = shadow.out_preamble[-1] if shadow.out_preamble[-1] is not None else len(shadow.bps)
+            i = rng.randrange(0, lim)
+            letters = "p" * rng.choice([1, 1, 2])
+            ops.append(("WB", i, letters)); shadow.wb(i, letters)
         elif rotations and k < 99:
             export = rng.randrange(2)
             # (named outputs) sometimes the new name is the name of the output that is open
